@@ -116,6 +116,7 @@ REQUIRED = ["interfeatures calls", "gap features compared", "suppressed pairs: t
             "aliasing: interfeatures calls whose yielded features were edited in place after collecting",
             "aliasing: yielded features given an ID in place (item assignment)",
             "aliasing: values appended in place to a list of a yielded feature (key not given by update_attributes)",
+            "aliasing: values appended in place to a list that came from update_attributes",
             "aliasing: a key given by update_attributes re-assigned in place on a yielded feature",
             "aliasing: other yielded features compared after an in-place edit",
             "aliasing: input attribute mappings compared after an in-place edit"] + \
@@ -161,11 +162,8 @@ ASSUMPTIONS = [
     "'inputs are unchanged' includes the dictionary handed in as update_attributes: whatever a consumer does to a yielded "
     "feature's own attributes (item assignment, appending to its lists) changes neither another yielded feature nor the "
     "caller's update_attributes nor an input, and a feature is yielded as the model says whatever was done to the ones before "
-    "it.  NOT generated, hence not judged: appending in place to a value list that came from update_attributes - the unchanged "
-    "tree puts the caller's list OBJECTS into every yielded feature (merge_attributes on or off): interfeatures([exon 1-5, exon "
-    "10-15, exon 20-25], update_attributes={'Parent': ['p1', 'p2']}), then first.attributes['Parent'].append('x') makes "
-    "update_attributes['Parent'] and the second yielded feature's Parent ['p1', 'p2', 'x'].  The consumer's edits are item "
-    "assignments (ID, a new key, a key of update_attributes) and appends to lists under keys update_attributes does not give",
+    "it (F-C15-1, repaired: the value lists of update_attributes were shared by reference).  The consumer's edits are item "
+    "assignments (ID, a new key, a key of update_attributes) and appends to any list, also those that came from update_attributes",
 ]
 QUICK_SHARDS = 4
 THOROUGH_SHARDS = 16
@@ -703,9 +701,12 @@ def execute_alias(ctx, case):
             a["ID"] = ["al%d_%d" % (rnd, i)]
             ctx.mon("aliasing: yielded features given an ID in place (item assignment)")
             for k in list(a.keys()):
-                if k != "ID" and k not in given and isinstance(a[k], list) and r.random() < 0.7:
+                if k != "ID" and isinstance(a[k], list) and r.random() < 0.7:
                     a[k].append("ed%d_%d" % (rnd, i))
-                    ctx.mon("aliasing: values appended in place to a list of a yielded feature (key not given by update_attributes)")
+                    if k in given:
+                        ctx.mon("aliasing: values appended in place to a list that came from update_attributes")
+                    else:
+                        ctx.mon("aliasing: values appended in place to a list of a yielded feature (key not given by update_attributes)")
             if r.random() < 0.5:
                 a["alias_extra"] = ["x%d_%d" % (rnd, i)]
             rest = sorted(k for k in given if k != "ID")
